@@ -13,7 +13,7 @@ NOT_APPLICABLE = {
 
 CHECKS = {
     "C03": {
-        "level_text": "every path of the real encoders/decoders (message package SSA) for all field values / input bytes within the byte bounds is executed symbolically against a reference codec written from the standard; length arithmetic of the fixed header for all 2^32 values; packet-id allocation as one inductive step from an arbitrary counter. Bounded model checking: complete inside the bounds, silent outside.",
+        "level_text": "every path of the real encoders/decoders (message package SSA) for all field values / input bytes within the byte bounds is executed symbolically against a reference codec written from the standard; length arithmetic of the fixed header for all 2^32 values; packet-id allocation as one inductive step from an arbitrary counter. Bounded model checking: complete inside the bounds, silent outside. Every encode harness runs with and without a Len() call before Encode.",
         "level_note": "trusted: go/ssa + engine semantics (cross-checked natively on every explored path), z3, the reference codec (harness/spec/speccodec.go); strings/payloads longer than the bounds are outside the claim",
         "groups": [
             {"pkg": "message", "run": "H03a_.*|H03d_.*|H03g_.*", "flags": {"common": ["-unwind", "40"]}},
@@ -77,7 +77,7 @@ CHECKS = {
         "assumptions": [],
     },
     "C06": {
-        "level_text": "the real MemTopics code (Subscribe/Unsubscribe/Subscribers/Retain/Retained, the trie and nextTopicLevel) is executed symbolically: byte-level filter x topic pairs with every byte a solver variable (all malformed filters included), and level-structured histories whose literal values and coincidences are the solver's choice; oracle = section 4.7 matching as a branch-free dynamic programme. Complete inside the bounds. Queries pass result slices that still hold an earlier answer (as package service does); a refused Subscribe (filter invalid at level 2..4 over existing nodes) must change nothing.",
+        "level_text": "the real MemTopics code (Subscribe/Unsubscribe/Subscribers/Retain/Retained, the trie and nextTopicLevel) is executed symbolically: byte-level filter x topic pairs with every byte a solver variable (all malformed filters included), and level-structured histories whose literal values and coincidences are the solver's choice; oracle = section 4.7 matching as a branch-free dynamic programme. Complete inside the bounds. Queries pass result slices that still hold an earlier answer (as package service does); a refused Subscribe (filter invalid at level 2..4 over existing nodes) must change nothing. Width and depth: 3..4 subscriptions on overlapping three-level filters with a symbolic three-level topic, a node with eleven children and a topic level that may be empty; for names with empty levels the library's known treatment (known finding) is stated exactly and asserted under a name the known-findings entry does not cover.",
         "level_note": "trusted: engine + z3 + the matching oracle (harness/spec/specnames.go); map iteration order = insertion order (reverse order in the thorough tier); subscribers are pointer values; names longer / histories deeper than the bounds are outside the claim",
         "groups": [
             {"pkg": "topics", "run": "H06a_.*|H06b_.*",
@@ -128,7 +128,7 @@ CHECKS = {
         "assumptions": [],
     },
     "C13": {
-        "level_text": "one inductive step of the real Ackqueue code (Wait / Ack / Acked, incl. grow while wrapped) from an ARBITRARY queue state satisfying the representation invariant: ring sizes 2 and 4 (8 thorough), every head position and fill level, symbolic packet ids / states / buffer bytes, symbolic argument; the post-state must equal the list model and satisfy the invariant again, so histories of any length are covered for these ring sizes; plus exhaustive short histories from a fresh queue that tie the invariant to reachable states.",
+        "level_text": "one inductive step of the real Ackqueue code (Wait / Ack / Acked, incl. grow while wrapped) from an ARBITRARY queue state satisfying the representation invariant: ring sizes 2 and 4 (8 thorough), every head position and fill level, symbolic packet ids / states / buffer bytes, symbolic argument; the post-state must equal the list model and satisfy the invariant again, so histories of any length are covered for these ring sizes; plus exhaustive short histories from a fresh queue that tie the invariant to reachable states. H13p_many runs the 16-slot queue a session uses through 17..260 requests in flight after 0..17 completed ones (growth while wrapped at 16..256 slots), acknowledged newest first or even-numbered first.",
         "level_note": "trusted: engine + z3 + the list model in the harness; ring sizes above the bound are outside the claim (the code is size-generic mask arithmetic); the mutex is not contended (single thread)",
         "max_validate_sched": {"quick": 12, "thorough": 40},
         "groups": [
@@ -160,7 +160,7 @@ CHECKS = {
         "assumptions": ["representation invariant and list model: DESIGN.md appendix A.4"],
     },
     "C14": {
-        "level_text": "step lemmas of the real ring-buffer code: ONE operation (Write, WriteWait+WriteCommit, ReadFrom, Read, ReadPeek+ReadCommit, ReadWait, WriteTo, Len) from an ARBITRARY cursor state - consumer/producer positions and the producer's cached gate are 63-bit solver variables, so every wrap position is covered; ring contents live in one SMT array; an arbitrary committed position is probed for 'left untouched'. The consumer and producer lemmas (DESIGN.md A.5) compose to 'consumer stream is a prefix of producer stream' for one producer and one consumer operating alternately. H14b: a producer needing 2..3 bytes on a ring with 0..1 free stays blocked while the consumer frees one byte at a time. H14c: one producer operation || two consumer steps under the exploring scheduler with the race detector (DESIGN.md 9.9).",
+        "level_text": "step lemmas of the real ring-buffer code: ONE operation (Write, WriteWait+WriteCommit, ReadFrom, Read, ReadPeek+ReadCommit, ReadWait, WriteTo, Len) from an ARBITRARY cursor state - consumer/producer positions and the producer's cached gate are 63-bit solver variables, so every wrap position is covered; ring contents live in one SMT array; an arbitrary committed position is probed for 'left untouched'. The consumer and producer lemmas (DESIGN.md A.5) compose to 'consumer stream is a prefix of producer stream' for one producer and one consumer operating alternately. H14b: a producer needing 2..3 bytes on a ring with 0..1 free stays blocked while the consumer frees one byte at a time. H14c: one producer operation || two consumer steps under the exploring scheduler with the race detector (DESIGN.md 9.9). H14_second_lap: a wrapped peek, a commit, and one lap later a wrapped peek at the same ring index with other contents and a smaller, equal or larger length.",
         "level_note": "trusted: engine + z3 (array theory for the ring) + the lemma statements; chunk sizes above the bound and true interleavings inside one operation are outside this check (blocking and wake-ups: C15; concurrent packet writers: C17)",
         "groups": [
             {"pkg": "service", "run": "H14_.*",
@@ -185,7 +185,7 @@ CHECKS = {
         "assumptions": ["stub io.Reader / io.Writer written in the harness (partial reads allowed; writer closes the buffer after one block)"],
     },
     "C15": {
-        "level_text": "the real buffer code runs in 2-4 interpreter threads (consumer operation || producer operation || one or two Close calls) from empty / one-byte / one-free-byte / full rings at two cursor positions; the exploring scheduler makes the choice of the next thread at every lock, condition-variable and atomic operation a decision within the preemption bound; a reachable state in which an unfinished thread can never run again (lost wake-up, mutex left locked) is a deadlock event; afterwards every buffer call is probed once more.",
+        "level_text": "the real buffer code runs in 2-4 interpreter threads (consumer operation || producer operation || one or two Close calls) from empty / one-byte / one-free-byte / full rings at two cursor positions; the exploring scheduler makes the choice of the next thread at every lock, condition-variable and atomic operation a decision within the preemption bound; a reachable state in which an unfinished thread can never run again (lost wake-up, mutex left locked) is a deadlock event; afterwards every buffer call is probed once more. H15_large_request: a producer request of 12000 bytes (more than one read block) that must wait for a 2000-byte commit, and a request larger than the ring that ends with the ring.",
         "level_note": "liveness is decided as absence of reachable stuck states within the bounds (threads, preemptions, one operation per thread); fairness-dependent starvation is outside; sync.Mutex/Cond/atomic are modelled by the engine (lost wake-ups if nobody is parked; no spurious wake-ups); counterexamples are replayed against the real code with a forced schedule on an instrumented copy of the sources",
         "groups": [
             {"pkg": "service", "run": "H15_.*", "sched": True,
@@ -303,7 +303,7 @@ CHECKS = {
         "assumptions": [],
     },
     "C08": {
-        "level_text": "the real broker executes histories of retained / non-retained / empty-payload publishes (QoS 0..2, completed handshakes) on two symbolic topics interleaved with new subscriptions (a connection's SUBSCRIBE or the in-process Server.Subscribe) using symbolic level-structured filters; what an existing subscriber is forwarded (retain flag cleared) and what each new subscription receives (exactly the matching retained messages, retain flag set, QoS min(stored, granted), payload intact) are compared with the retained-store model of DESIGN.md A.6. A hook on the topic store lets a retained update or clear land between the two steps of a new subscription (wire SUBSCRIBE and Server.Subscribe): the subscription must end up with the current value.",
+        "level_text": "the real broker executes histories of retained / non-retained / empty-payload publishes (QoS 0..2, completed handshakes) on two symbolic topics interleaved with new subscriptions (a connection's SUBSCRIBE or the in-process Server.Subscribe) using symbolic level-structured filters; what an existing subscriber is forwarded (retain flag cleared) and what each new subscription receives (exactly the matching retained messages, retain flag set, QoS min(stored, granted), payload intact) are compared with the retained-store model of DESIGN.md A.6. A hook on the topic store lets a retained update or clear land between the two steps of a new subscription (wire SUBSCRIBE and Server.Subscribe): the subscription must end up with the current value. Sizes: a stored QoS 1/2 message whose remaining length is 127..131 downgraded for a lower grant (network and in-process subscriber), 9..12 retained matches for one SUBSCRIBE of 2..3 filters, retained copies whose publisher-chosen identifiers and DUP flags coincide with deliveries still in flight.",
         "level_note": "canonical schedule; the copy-on-store property against ring reuse is checked at store level in C06 (the caller's buffers are overwritten after Retain); retained updates concurrent with a subscription are C18",
         "max_validate": {"quick": 100, "thorough": 300},
         "groups": [
@@ -329,7 +329,7 @@ CHECKS = {
         "assumptions": [],
     },
     "C09": {
-        "level_text": "the real broker runs a connection whose CONNECT carries a fully symbolic will (flag, QoS, retain, topic byte, payload) and clean-session bit, optionally some traffic, and one of five endings (DISCONNECT, network drop, read-deadline expiry, reserved packet type, malformed PUBLISH); a witness subscribed to '#' at QoS 2 must see the will of the ending connection's CONNECT exactly once iff the ending is not DISCONNECT; a second harness reconnects the same client id with a different / no will and either clean-session value; a third sends CONNECT (with will), PUBLISH and DISCONNECT without waiting for CONNACK, in two segments cut at an arbitrary byte.",
+        "level_text": "the real broker runs a connection whose CONNECT carries a fully symbolic will (flag, QoS, retain, topic byte, payload) and clean-session bit, optionally some traffic, and one of five endings (DISCONNECT, network drop, read-deadline expiry, reserved packet type, malformed PUBLISH); a witness subscribed to '#' at QoS 2 must see the will of the ending connection's CONNECT exactly once iff the ending is not DISCONNECT; a second harness reconnects the same client id with a different / no will and either clean-session value; a third sends CONNECT (with will), PUBLISH and DISCONNECT without waiting for CONNACK, in two segments cut at an arbitrary byte. H09_will_same_id: the will's generator-assigned packet identifier may equal one still in flight at the witness; the identifier generator from an arbitrary counter value (H03d).",
         "level_note": "canonical schedule; vrtConn pipes (deadline expiry is declared by the harness); Server.Close as an ending and concurrent endings are outside (C16)",
         "max_validate": {"quick": 100, "thorough": 300},
         "groups": [
@@ -344,7 +344,7 @@ CHECKS = {
         "assumptions": [],
     },
     "C10": {
-        "level_text": "the real broker serves K successive connections over two client ids (one symbolic byte each - the solver decides whether they coincide) with symbolic clean-session bits; each may subscribe or unsubscribe and ends by DISCONNECT or network drop; the SessionPresent bit of every CONNACK, delivery through restored subscriptions without re-subscribing, isolation between ids and the size of the session store are compared with the session model of DESIGN.md A.6. A SUBSCRIBE may list a refused filter ahead of the accepted one; H10_takeover lets the same client id connect again while its old connection is still up, subscribes through the newer one and ends the two in either order.",
+        "level_text": "the real broker serves K successive connections over two client ids (one symbolic byte each - the solver decides whether they coincide) with symbolic clean-session bits; each may subscribe or unsubscribe and ends by DISCONNECT or network drop; the SessionPresent bit of every CONNACK, delivery through restored subscriptions without re-subscribing, isolation between ids and the size of the session store are compared with the session model of DESIGN.md A.6. A SUBSCRIBE may list a refused filter ahead of the accepted one; H10_takeover lets the same client id connect again while its old connection is still up, subscribes through the newer one and ends the two in either order. H10m_many_filters: a persistent session with 17..300 filters made over one to four SUBSCRIBE packets, resumed twice, one filter removed in between.",
         "level_note": "canonical schedule; one filter ('t'); two simultaneous connections with the same id (take-over) are outside",
         "max_validate": {"quick": 100, "thorough": 300},
         "groups": [
@@ -361,7 +361,7 @@ CHECKS = {
         "assumptions": [],
     },
     "C11": {
-        "level_text": "the real accept path (handleConnection, getMessageBuffer, CONNECT decode, authentication, session creation, start of the connection's goroutines) runs on an in-memory pipe inside the engine; the first packet is (a) an arbitrary byte string of 0..N bytes and (b) a CONNECT built from fully symbolic fields and flags, under the accepting and the rejecting authenticator; it is followed by a SUBSCRIBE and a retained PUBLISH. The CONNACK bytes, the open/closed state, a witness subscriber, the retained store and the session count are compared with the outcome classes of DESIGN.md A.3. An acceptable CONNECT arriving in two segments cut at any byte, alone or with packets pipelined behind it, must be accepted (H09_pipelined).",
+        "level_text": "the real accept path (handleConnection, getMessageBuffer, CONNECT decode, authentication, session creation, start of the connection's goroutines) runs on an in-memory pipe inside the engine; the first packet is (a) an arbitrary byte string of 0..N bytes and (b) a CONNECT built from fully symbolic fields and flags, under the accepting and the rejecting authenticator; it is followed by a SUBSCRIBE and a retained PUBLISH. The CONNACK bytes, the open/closed state, a witness subscriber, the retained store and the session count are compared with the outcome classes of DESIGN.md A.3. An acceptable CONNECT arriving in two segments cut at any byte, alone or with packets pipelined behind it, must be accepted (H09_pipelined). H11_reconnect_accepted: 2..3 successive connections of one client identifier (clean flags and endings symbolic) are each answered with return code 0 and work.",
         "level_note": "canonical schedule (every packet is processed to quiescence before the next arrives); net.Conn is the harness pipe vrtConn; logging stubbed; don't-care: non-minimal remaining-length encodings and user-name/password flags without the field (library-documented 3.1 leniency)",
         "max_validate": {"quick": 120, "thorough": 400},
         "groups": [
@@ -379,7 +379,7 @@ CHECKS = {
         "assumptions": ["outcome classes: DESIGN.md appendix A.3 (harness/spec/speccodec.go specConnectClass)"],
     },
     "C16": {
-        "level_text": "bounded: two connections (publisher, subscriber; both connection orders) on harness pipes that can stop reading; buffer conditions idle / subscriber stalled with its outbound ring full and the publisher's processor blocked in the delivery / additionally the publisher's inbound ring full / both stalled and flooding each other / a connection flooding itself without reading (processor blocked on its own outbound ring) / a protocol error in the middle of a full pipeline behind a stalled subscriber; endings DISCONNECT, network drop, read-deadline expiry, protocol error, broken write side followed by a last SUBSCRIBE and the drop (the two connections one after the other, either order) or Server.Close with everything still blocked. At quiescence after the endings no interpreter thread of an ended connection is alive, both pipes are closed, nothing is subscribed any more and Server.Close returns; a thread that can never run again is reported (live thread at quiescence, or deadlock of Server.Close).",
+        "level_text": "bounded: two connections (publisher, subscriber; both connection orders) on harness pipes that can stop reading; buffer conditions idle / subscriber stalled with its outbound ring full and the publisher's processor blocked in the delivery / additionally the publisher's inbound ring full / both stalled and flooding each other / a connection flooding itself without reading (processor blocked on its own outbound ring) / a protocol error in the middle of a full pipeline behind a stalled subscriber; endings DISCONNECT, network drop, read-deadline expiry, protocol error, broken write side followed by a last SUBSCRIBE and the drop (the two connections one after the other, either order) or Server.Close with everything still blocked. At quiescence after the endings no interpreter thread of an ended connection is alive, both pipes are closed, nothing is subscribed any more and Server.Close returns; a thread that can never run again is reported (live thread at quiescence, or deadlock of Server.Close). Further: four to six steps of connect / end before Server.Close (H16_churn_then_close), an ending while the inbound ring holds a packet that is never completed (H16_truncated_packet_at_end; a processor that retries for ever is found as a livelock candidate and confirmed natively by the CPU it burns), and Server.Close while a connection's own teardown is in progress (H18_close_during_teardown).",
         "level_note": "this is NOT the property's 'bounded time for all schedules': it decides absence of stuck states under the canonical schedule for these fault sequences (liveness as reachability of a stuck state, as in C15); other interleavings of the 8 goroutines, more connections and other orders of the endings are outside; natively the goroutine count (runtime.NumGoroutine relative to the start of the run) stands in for the engine's thread accounting",
         "max_validate": {"quick": 40, "thorough": 80},
         "groups": [
@@ -444,7 +444,7 @@ CHECKS = {
         "assumptions": [],
     },
     "C18": {
-        "level_text": "broker scenarios (retained update against subscriptions that receive the retained message, two publishers plus Server.Publish to one subscriber with subscription churn, delivery to a connection that is being torn down while another connects, several connections and an in-process call receiving the same stored retained message at once, a stored session resumed - after the old connection ended or while it is still open - while another connection publishes to its subscription) run with the engine's happens-before race detector: vector clocks per thread, release/acquire edges for every mutex, RWMutex, Cond, WaitGroup, Once, atomic, go and channel operation, and a shadow state per memory cell; two conflicting accesses by different threads that no synchronisation chain orders are a race whatever the interleaving of the explored run was. A race is reported only if the Go race detector reports one on the natively compiled scenario.",
+        "level_text": "broker scenarios (retained update against subscriptions that receive the retained message, two publishers plus Server.Publish to one subscriber with subscription churn, delivery to a connection that is being torn down while another connects, several connections and an in-process call receiving the same stored retained message at once, a stored session resumed - after the old connection ended or while it is still open - while another connection publishes to its subscription) run with the engine's happens-before race detector: vector clocks per thread, release/acquire edges for every mutex, RWMutex, Cond, WaitGroup, Once, atomic, go and channel operation, and a shadow state per memory cell; two conflicting accesses by different threads that no synchronisation chain orders are a race whatever the interleaving of the explored run was. A race is reported only if the Go race detector reports one on the natively compiled scenario. Server.Close against a teardown in progress, against a connection being accepted and against a fan-out of a connection that has a will; a ring closed while its consumer works on a wrapped block (exploring scheduler).",
         "level_note": "a happens-before detector sees the races between accesses that occur in the explored executions (canonical schedule, plus one preemption in the thorough tier); operation pairs outside the scenario matrix, races inside net / logging / TLS are outside",
         "max_validate": {"quick": 20, "thorough": 40},
         "max_validate_sched": {"quick": 8, "thorough": 24},
@@ -479,7 +479,7 @@ CHECKS = {
         "assumptions": [],
     },
     "C19": {
-        "level_text": "the keep-alive K of the CONNECT (all 65536 values; 0 = the 30 s default), the starting instant and every gap between the client's packets are solver variables; the harness pipe records each SetReadDeadline: the armed deadline must lie between K s and 1.5 K s after the instant it was armed, and must have been re-armed for the very read that is pending; a client active at gaps below K (PINGREQ or PUBLISH, N steps) is never dropped and every PINGREQ is answered; when the armed deadline then passes, the connection is closed as failed and its will is published. Variants: the session is fresh or resumed after a DISCONNECT; the silence begins on a packet boundary or after 1 / 3 bytes of a packet; the client is a silent subscriber that still receives traffic (which must not re-arm the deadline); H19b: a dead subscriber whose outbound ring is full and blocks a publisher is still dropped.",
+        "level_text": "the keep-alive K of the CONNECT (all 65536 values; 0 = the 30 s default), the starting instant and every gap between the client's packets are solver variables; the harness pipe records each SetReadDeadline: the armed deadline must lie between K s and 1.5 K s after the instant it was armed, and must have been re-armed for the very read that is pending; a client active at gaps below K (PINGREQ or PUBLISH, N steps) is never dropped and every PINGREQ is answered; when the armed deadline then passes, the connection is closed as failed and its will is published. Variants: the session is fresh or resumed after a DISCONNECT; the silence begins on a packet boundary or after 1 / 3 bytes of a packet; the client is a silent subscriber that still receives traffic (which must not re-arm the deadline); H19b: a dead subscriber whose outbound ring is full and blocks a publisher is still dropped. H19d_block_boundary: a client burst that ends exactly at, one byte before, one byte after the receiver's 8192-byte read block, or after exactly two blocks: the next read is armed afresh.",
         "level_note": "canonical schedule; the OS timer / net deadline implementation is replaced by the harness pipe (expiry is declared by the harness once the clock is past the armed deadline); arithmetic queries that z3 4.8.12 leaves unknown within 3 s are decided by cvc5 (--solve-bv-as-int=sum) / z3 5.1 on a self-contained script (counted in evidence)",
         "max_validate": {"quick": 6, "thorough": 12},
         "groups": [
@@ -517,7 +517,7 @@ CHECKS = {
         "assumptions": [],
     },
     "C04": {
-        "level_text": "each decoder is executed symbolically on an input whose length (0..N) and every byte are solver variables, cap == len, so every index/slice instruction is a proof obligation; acceptance of every well-formed exact frame is checked against the reference decoder. Complete for all inputs up to N bytes. In addition (H04b) PUBLISH, SUBSCRIBE, SUBACK and UNSUBSCRIBE packets whose remaining length is 126..130 and 16382..16385 (a concrete filler plus a symbolic 1..3-byte tail element) must decode to the reference fields and size and re-encode to the same bytes.",
+        "level_text": "each decoder is executed symbolically on an input whose length (0..N) and every byte are solver variables, cap == len, so every index/slice instruction is a proof obligation; acceptance of every well-formed exact frame is checked against the reference decoder. Complete for all inputs up to N bytes. In addition (H04b) PUBLISH, SUBSCRIBE, SUBACK and UNSUBSCRIBE packets whose remaining length is 126..130 and 16382..16385 (a concrete filler plus a symbolic 1..3-byte tail element) must decode to the reference fields and size and re-encode to the same bytes. H04b_truncated_large: the same large packets with the last 1..4 bytes missing must be refused without touching anything behind the input.",
         "level_note": "trusted: go/ssa + engine semantics (cross-checked natively on every explored path), z3, the reference decoder; inputs longer than N bytes are outside the claim",
         "groups": [
             {"pkg": "message", "run": "H04_.*",
